@@ -49,8 +49,104 @@ def record_log(case: str, overwrite: bool):
     if template is None:
         open(os.path.join(full, '.gitignore'), 'w').write('*\n')
     if dir_state(full) != dir_state(d):
-        raise HarnessError(f'raw-operation log of {case} does not reproduce the saved directory')
+        # the code under test reaches the file system through an API the in-process layer does not
+        # see: take the log from the kernel's side instead (no Python-level write boundaries then)
+        shutil.rmtree(top, ignore_errors=True)
+        log, template, top, final = strace_log(case, overwrite)
+        full = os.path.join(top, 'full')
+        materialise(log, full, template)
+        if template is None:
+            open(os.path.join(full, '.gitignore'), 'w').write('*\n')
+        if dir_state(full) != final:
+            raise HarnessError(f'neither the in-process nor the strace raw-operation log of {case} reproduces the saved directory')
     return log, template, top
+
+
+STRACE_LOG_SCRIPT = r"""
+import os, shutil, sys
+from verif_lt.common import silence_labtech
+silence_labtech()
+from verif_lt.savepath import good_run
+from labtech.storage import LocalStorage
+d, case, overwrite, template = sys.argv[1], sys.argv[2], sys.argv[3] == '1', sys.argv[4]
+LocalStorage(d)
+if overwrite:
+    good_run(d, case, 1)
+    shutil.copytree(d, template)
+os.mkdir(os.path.join(os.path.dirname(d), 'MARK'))
+v = good_run(d, case, 2, bust=overwrite)
+os.mkdir(os.path.join(os.path.dirname(d), 'DONE'))
+"""
+
+
+def _unhex(txt: str) -> bytes:
+    return bytes(int(h, 16) for h in __import__('re').findall(r'\\x([0-9a-f]{2})', txt))
+
+
+def strace_log(case: str, overwrite: bool):
+    """The raw-operation log taken from the kernel's point of view: the save runs in a fresh interpreter
+    under strace (with the written bytes), whatever Python API the code under test uses to reach the
+    file system.  Returns (log, template dir or None, top dir, final dir state)."""
+    import re
+    import subprocess
+    top = tmpdir('c13x_')
+    d = os.path.join(top, 'live')
+    os.makedirs(d)
+    template = os.path.join(top, 'template')
+    script = os.path.join(top, 'save.py')
+    open(script, 'w').write(STRACE_LOG_SCRIPT)
+    out = os.path.join(top, 'trace.txt')
+    p = subprocess.run(['strace', '-f', '-y', '-xx', '-s', '50000000', '-e',
+                        'trace=openat,open,creat,mkdir,mkdirat,write,pwrite64,close,unlink,unlinkat,rmdir,rename,renameat,renameat2,ftruncate,truncate',
+                        '-o', out, sys.executable, script, d, case, '1' if overwrite else '0', template], capture_output=True, text=True, timeout=600)
+    if p.returncode != 0:
+        raise HarnessError(f'strace run failed: {p.stderr[-600:]}')
+    log = []
+    seen_mark = False
+    pre = d + os.sep
+    writing: dict = {}
+    for line in open(out):
+        m = re.match(r'^\d+\s+(\w+)\((.*)\)\s+=\s+(-?\d+)', line, re.S)
+        if not m:
+            continue
+        call, argtxt, ret = m.group(1), m.group(2), int(m.group(3))
+        strs = []
+        if call not in ('write', 'pwrite64'):
+            strs = [_unhex(x).decode('utf-8', 'replace') for x in re.findall(r'"((?:\\x[0-9a-f]{2})*)"', argtxt)]
+        if not seen_mark:
+            seen_mark = call == 'mkdir' and any(x.endswith('MARK') for x in strs)
+            continue
+        if call == 'mkdir' and any(x.endswith('DONE') for x in strs):
+            break
+        if ret < 0:
+            continue
+        tail = line[m.end(2):]
+        fdpaths = [(_unhex(x).decode('utf-8', 'replace') if '\\x' in x else x) for x in re.findall(r'<([^>]*)>', argtxt + tail)]
+        paths = [x for x in strs + fdpaths if x.startswith(pre)]
+        if not paths or paths[0].endswith('.gitignore'):
+            continue
+        rel = os.path.relpath(paths[0], d)
+        if call in ('mkdir', 'mkdirat'):
+            log.append(('mkdir', rel))
+        elif call in ('openat', 'open', 'creat'):
+            if 'O_WRONLY' in argtxt or 'O_RDWR' in argtxt or call == 'creat':
+                how = 'trunc' if ('O_TRUNC' in argtxt or call == 'creat') else ('append' if 'O_APPEND' in argtxt else 'keep')
+                writing[rel] = True
+                log.append(('open', rel, how, True))
+        elif call in ('write', 'pwrite64'):
+            if writing.get(rel):
+                data = _unhex(re.search(r'"((?:\\x[0-9a-f]{2})*)"', argtxt).group(1))[:ret]
+                log.append(('write', rel, data))
+        elif call == 'close':
+            if writing.pop(rel, None):
+                log.append(('close', rel))
+        elif call in ('ftruncate', 'truncate'):
+            log.append(('open', rel, 'trunc', True))
+        elif call in ('unlink', 'rmdir', 'unlinkat'):
+            log.append(('rmdir' if ('AT_REMOVEDIR' in argtxt or call == 'rmdir') else 'unlink', rel))
+        elif call.startswith('rename'):
+            log.append(('rename', rel, os.path.relpath(paths[-1], d)))
+    return log, (template if overwrite else None), top, dir_state(d)
 
 
 def eval_states(args):
@@ -388,7 +484,7 @@ def count_lines(case):
 
 def run(tier: str, seed: int) -> Result:
     silence_labtech()
-    cases = ['pickle-small', 'json-small', 'pickle-blob'] + (['pickle-multi'] if tier == 'quick' else ['pickle-multi', 'json-multi'])
+    cases = ['pickle-small', 'json-small', 'pickle-blob', 'pickle-nonascii', 'json2-small'] + (['pickle-multi'] if tier == 'quick' else ['pickle-multi', 'json-multi'])
     viols = []
     n_states = n_cached = 0
     tops = []
